@@ -184,8 +184,12 @@ def ref_error(kind, data):
 
 
 def rejects(kind, data):
-    """True = invalid according to the reference parser."""
-    return ref_error(kind, data) is not None
+    """True = invalid: rejected by the reference parser AND by the parser entry point graphtage's loader delegates to
+    (graphtage itself is not involved in either).  The two YAML implementations differ on a few inputs (the pure-Python
+    SafeLoader rejects a tab inside a flow-mapping key, `{de<TAB>p: [x, y]}`, libyaml's C loader accepts it): a file the
+    delegated parser reads is not an invalid file, and diffing it is what the command should do (found with VERIF_SEED=5:
+    flip@24=09 of the YAML seed document; a false alarm of this stream, corrected here)."""
+    return ref_error(kind, data) is not None and entry_error(kind, data) is not None
 
 
 def entry_error(kind, data):
